@@ -27,25 +27,23 @@ namespace GB.C09
 
 /-- length (2, 3, 4) of the well-formed UTF-8 sequence formed by the lead byte `c ≥ 0x80` and the bytes after it;
     0 if there is none (`utf8.DecodeRune` then returns (RuneError, 1)) -/
+def valid2 (c b1 : UInt8) : Bool := 194 ≤ c && c ≤ 223 && isCont b1
+
+def valid3 (c b1 b2 : UInt8) : Bool :=
+  224 ≤ c && c ≤ 239 &&
+    (if c == 224 then 160 ≤ b1 && b1 ≤ 191 else if c == 237 then 128 ≤ b1 && b1 ≤ 159 else isCont b1) && isCont b2
+
+def valid4 (c b1 b2 b3 : UInt8) : Bool :=
+  240 ≤ c && c ≤ 244 &&
+    (if c == 240 then 144 ≤ b1 && b1 ≤ 191 else if c == 244 then 128 ≤ b1 && b1 ≤ 143 else isCont b1) &&
+    isCont b2 && isCont b3
+
 def utf8Len (c : UInt8) (rest : Bytes) : Nat :=
-  if 194 ≤ c && c ≤ 223 then
-    match rest with
-    | b1 :: _ => if isCont b1 then 2 else 0
-    | _ => 0
-  else if 224 ≤ c && c ≤ 239 then
-    match rest with
-    | b1 :: b2 :: _ =>
-      if (if c == 224 then 160 ≤ b1 && b1 ≤ 191 else if c == 237 then 128 ≤ b1 && b1 ≤ 159 else isCont b1) && isCont b2
-      then 3 else 0
-    | _ => 0
-  else if 240 ≤ c && c ≤ 244 then
-    match rest with
-    | b1 :: b2 :: b3 :: _ =>
-      if (if c == 240 then 144 ≤ b1 && b1 ≤ 191 else if c == 244 then 128 ≤ b1 && b1 ≤ 143 else isCont b1)
-          && isCont b2 && isCont b3
-      then 4 else 0
-    | _ => 0
-  else 0
+  match rest with
+  | [] => 0
+  | [b1] => if valid2 c b1 then 2 else 0
+  | [b1, b2] => if valid2 c b1 then 2 else if valid3 c b1 b2 then 3 else 0
+  | b1 :: b2 :: b3 :: _ => if valid2 c b1 then 2 else if valid3 c b1 b2 then 3 else if valid4 c b1 b2 b3 then 4 else 0
 
 /-- U+FFFD in UTF-8 -/
 def fffd : Bytes := [239, 191, 189]
@@ -402,6 +400,22 @@ def numsValidMembers : List (Bytes × J) → Bool
   | [] => true
   | (_, v) :: kvs => numsValid v && numsValidMembers kvs
 end
+
+mutual
+/-- every string and member name in the tree is valid UTF-8 -/
+def strsValid : J → Bool
+  | .str s => validUtf8 s
+  | .arr xs => strsValidList xs
+  | .obj kvs => strsValidMembers kvs
+  | _ => true
+def strsValidList : List J → Bool
+  | [] => true
+  | x :: xs => strsValid x && strsValidList xs
+def strsValidMembers : List (Bytes × J) → Bool
+  | [] => true
+  | (name, v) :: kvs => validUtf8 name && strsValid v && strsValidMembers kvs
+end
+
 
 /-- `json.Marshal` writes the members of a `map[string]…` sorted by name (byte order) -/
 def bytesLt : Bytes → Bytes → Bool
